@@ -3,9 +3,10 @@ import BarterModel.Model.Backtest
 /-! Line-protocol driver for C20.
 Ops: `data k i:p ...`, `strat t:i:s:q ...` | `strat -`, `run n w`.
 
-`model` builds N machines (`cInit`), computes for each a lazy and an eager action list
-(`schedActs`), interleaves them round-robin into one global schedule and executes it with `sysRun`
-(the function of the isolation theorem). `seen` / `inst` / `reqs` are read off the final states
+`model` runs every strategy parameterisation alone with `run` under a lazy and an eager action list
+(`schedActs`); for small systems it also builds the N machines, interleaves their action lists
+round-robin into one global schedule, executes it with `sysRun` (the function of the isolation
+theorem) and checks that every machine ended as it does alone (`bad-state isolation` otherwise). `seen` / `inst` / `reqs` are read off the final states
 (schedule independent by `market_view_schedule_independent` + `concrete_market_view`); `own` checks
 `eng = engFold processed` on the final state; `alone` is `1` when the two extreme schedules give the
 same account-side summary and the non-deterministic token `{0|1}` when they do not (the real result
@@ -17,10 +18,17 @@ the same as when run alone. -/
 namespace BarterModel.Driver.C20
 open BarterModel.Driver BarterModel.Backtest
 
+/-- final states of one strategy parameterisation under the two extreme schedules -/
+structure PlanRes where
+  lazyS : BT CEng CExch MktEv AccEv
+  eagerS : BT CEng CExch MktEv AccEv
+
 structure St where
   k : Nat
   ds : List MktEv
   plans : List (List PlanItem)
+  /-- per-plan results, computed at the first `run` of a case (they do not depend on `n`, `w`) -/
+  cache : Option (List PlanRes) := none
 
 def parseEvents (k : Nat) (toks : List String) : Option (List MktEv) :=
   let rec go (pos : Nat) : List String → Option (List MktEv)
@@ -75,19 +83,46 @@ def line (parts : List String) : String := " ".intercalate (parts.filter (· ≠
 
 def fuelFor (s : St) : Nat := 8 * (s.ds.length + 4) + 40
 
-def runModel (s : St) (n : Nat) : List String :=
+/-- One backtest alone: action lists from the two policies, final states by `run`. -/
+def planRes (s : St) (plan : List PlanItem) : PlanRes :=
+  let fuel := fuelFor s
+  let st := cInit s.k plan s.ds
+  { lazyS := run cEngine cExchange st (schedActs cEngine cExchange pickLazy fuel st),
+    eagerS := run cEngine cExchange st (schedActs cEngine cExchange pickEager fuel st) }
+
+/-- N concurrent backtests as one system under a round-robin global schedule (`sysRun`); by
+`isolation` each machine must end as it does alone. Executed when the system is small enough to keep
+the driver fast (N * dataset length <= 4000); returns `false` if some machine differs from its
+alone run. -/
+def sysAgrees (s : St) (n : Nat) (res : List PlanRes) : Bool :=
+  if n * s.ds.length > 4000 then true else
   let fuel := fuelFor s
   let plan (b : Nat) : List PlanItem := s.plans.getD (b % s.plans.length) []
   let inits : List (BT CEng CExch MktEv AccEv) := (List.range n).map fun b => cInit s.k (plan b) s.ds
   let lazyActs := inits.map fun st => schedActs cEngine cExchange pickLazy fuel st
   let eagerActs := inits.map fun st => schedActs cEngine cExchange pickEager fuel st
-  let sysLazy := sysRun cEngine cExchange inits (interleave fuel lazyActs)
-  let sysEager := sysRun cEngine cExchange inits (interleave fuel eagerActs)
+  -- machine b runs lazily when b is even, eagerly when odd: a mixed global schedule
+  let mixed := (List.range n).map fun b => if b % 2 == 0 then lazyActs.getD b [] else eagerActs.getD b []
+  let sys := sysRun cEngine cExchange inits (interleave fuel mixed)
+  (List.range n).all fun b =>
+    match sys[b]?, res[b % s.plans.length]? with
+    | some m, some r =>
+      let alone := if b % 2 == 0 then r.lazyS else r.eagerS
+      m.eng == alone.eng && m.processed == alone.processed && m.stopped == alone.stopped
+        && m.exch == alone.exch
+    | _, _ => false
+
+def runModel (s : St) (n : Nat) (res : List PlanRes) : List String :=
+  if !sysAgrees s n res then ["bad-state isolation"] else
   (List.range n).flatMap fun b =>
-    match sysLazy[b]?, sysEager[b]? with
-    | some l, some e =>
-      let own := l.eng == engFold cEngine (cEng0 s.k (plan b)) l.processed
-        && e.eng == engFold cEngine (cEng0 s.k (plan b)) e.processed
+    let pi := b % s.plans.length
+    match res[pi]? with
+    | some r =>
+      let l := r.lazyS
+      let e := r.eagerS
+      let e0 := cEng0 s.k (s.plans.getD pi [])
+      let own := l.eng == engFold cEngine e0 l.processed
+        && e.eng == engFold cEngine e0 e.processed
         && l.stopped == some .shutdown && e.stopped == some .shutdown
       let det := cSummarise l.eng == cSummarise e.eng
       [ line ["seen", toString b, ids l.eng.mv.seen] ] ++
@@ -95,27 +130,31 @@ def runModel (s : St) (n : Nat) : List String :=
       [ line ["reqs", toString b, " ".intercalate (l.eng.mv.reqs.map reqStr)],
         line ["own", toString b, fmtBool own],
         line ["alone", toString b, if det then "1" else "{0|1}"] ]
-    | _, _ => ["bad-state"]
+    | none => ["bad-state"]
 
 def model : Drv St where
-  init := ⟨0, [], []⟩
+  init := ⟨0, [], [], none⟩
   step s toks :=
     match toks with
     | "data" :: k :: evs =>
       match k.toNat? with
       | some k =>
         match parseEvents k evs with
-        | some ds => (⟨k, ds, []⟩, [s!"data {k} {ds.length}"])
+        | some ds => (⟨k, ds, [], none⟩, [s!"data {k} {ds.length}"])
         | none => (s, ["bad-op"])
       | none => (s, ["bad-op"])
     | "strat" :: items =>
       match parsePlan s.k items with
-      | some p => ({ s with plans := s.plans ++ [p] }, [s!"strat {s.plans.length}"])
+      | some p => ({ s with plans := s.plans ++ [p], cache := none }, [s!"strat {s.plans.length}"])
       | none => (s, ["bad-op"])
     | ["run", n, w] =>
       match n.toNat?, w.toNat? with
       | some n, some _ =>
-        if s.plans.isEmpty || s.ds.isEmpty then (s, ["bad-op"]) else (s, runModel s n)
+        if s.plans.isEmpty || s.ds.isEmpty then (s, ["bad-op"]) else
+        let res := match s.cache with
+          | some r => r
+          | none => s.plans.map (planRes s)
+        ({ s with cache := some res }, runModel s n res)
       | _, _ => (s, ["bad-op"])
     | _ => (s, ["bad-op"])
 
@@ -128,14 +167,14 @@ def runSpec (s : St) (n : Nat) : List String :=
     [ line ["own", toString b, "1"], line ["alone", toString b, "1"] ]
 
 def spec : Drv St where
-  init := ⟨0, [], []⟩
+  init := ⟨0, [], [], none⟩
   step s toks :=
     match toks with
     | "data" :: k :: evs =>
       match k.toNat? with
       | some k =>
         match parseEvents k evs with
-        | some ds => (⟨k, ds, []⟩, [])
+        | some ds => (⟨k, ds, [], none⟩, [])
         | none => (s, ["bad-op"])
       | none => (s, ["bad-op"])
     | "strat" :: items =>
